@@ -1,5 +1,6 @@
 //! C08 - malformed or foreign packets are discarded without panic or effect.
 use super::common::*;
+use super::posthoc::progress_in_tail;
 use crate::engine::*;
 use crate::gen::*;
 use crate::sim::net::{ref_rle_decode, LinkProfile};
@@ -70,6 +71,27 @@ pub fn payload_is_valid(bytes: &[u8], frame_size: usize) -> bool {
     true
 }
 
+/// is the payload a structurally valid encoding (RLE layer and length framing), whatever the frame sizes?
+/// Whether the frames have the right size can only be judged by a receiver that holds the reference input
+/// the packet was encoded against; one that does not must still act on the acknowledgement and the status
+/// table of a well-formed packet.
+pub fn payload_structure_ok(bytes: &[u8]) -> bool {
+    let Some(raw) = ref_rle_decode(bytes, 1 << 22) else { return false };
+    let mut pos = 0;
+    while pos < raw.len() {
+        if pos + 2 > raw.len() {
+            return false;
+        }
+        let len = u16::from_le_bytes([raw[pos], raw[pos + 1]]) as usize;
+        pos += 2;
+        if pos + len > raw.len() {
+            return false;
+        }
+        pos += len;
+    }
+    true
+}
+
 fn frame_size(sc: &Scenario, from_addr: u8, to_addr: u8) -> usize {
     let per = if sc.wide { 4 } else { 1 };
     let idx = (from_addr as usize).wrapping_sub(1);
@@ -101,6 +123,11 @@ pub fn sanitize(sc: &mut Scenario) -> usize {
                 if *kind == 2 || *kind == 6 {
                     return Some((i, payload_is_valid(bytes, frame_size(sc, *from, *to))));
                 }
+                if *kind == 12 || *kind == 13 {
+                    // these carry a forged status table / acknowledgement: only payloads that NO receiver can
+                    // take for an encoding make the packet malformed beyond doubt
+                    return Some((i, !bytes.is_empty() && payload_structure_ok(bytes)));
+                }
             }
             None
         })
@@ -109,7 +136,7 @@ pub fn sanitize(sc: &mut Scenario) -> usize {
         // kind 6 (foreign magic) must be dropped even when the payload is valid; kind 2 with a valid
         // payload is simply a real packet
         if valid {
-            if let Op::Forge { kind: 2, .. } = sc.ops[i] {
+            if let Op::Forge { kind: 2 | 12 | 13, .. } = sc.ops[i] {
                 sc.ops.remove(i);
                 removed += 1;
             }
@@ -134,6 +161,28 @@ pub fn eval(sc0: &Scenario) -> CaseResult {
     r.summary = summary(&sc, &out);
     r.violation = first_violation(&out, PROPS);
     let deterministic_net = sc.link.loss == 0 && sc.link.dup == 0 && sc.link.lat_min == sc.link.lat_max && sc.links.is_empty();
+    if r.violation.is_none() && !deterministic_net {
+        // "valid traffic continues to be processed correctly afterwards": a session that makes no progress at all
+        // at the end of the clean settle phase although its twin without the forged packets does, was wedged by them
+        let (pp, sp) = progress_in_tail(&out, 90);
+        // (a session that was legitimately cut off - 128-pending cap on a lossy spectator link, timeout - or a
+        // spectator that fell more than its 60-frame buffer behind is not "wedged by the packet": under loss the
+        // two runs are different random trajectories)
+        if !any_disconnect(&out) && (pp.iter().zip(out.peers.iter()).any(|(d, p)| p.alive && *d <= 0) || sp.iter().zip(out.specs.iter()).any(|(d, s)| *d <= 0 && s.too_far == 0)) {
+            let t = run(&twin_of(&sc), &RunOpts::default());
+            let (tp, ts) = progress_in_tail(&t, 90);
+            for i in 0..pp.len() {
+                if out.peers[i].alive && pp[i] <= 0 && tp[i] >= 3 && !any_disconnect(&t) {
+                    r.violation = Some(("C08.wedged_by_forged_packet".into(), format!("peer{i} advanced {} frames in the last 90 ticks (clean network) but {} in the twin run without the forged packets; forged kinds {:?}", pp[i], tp[i], sc.ops.iter().filter_map(|o| if let Op::Forge { kind, .. } = o { Some(*kind) } else { None }).collect::<Vec<_>>())));
+                }
+            }
+            for i in 0..sp.len() {
+                if sp[i] <= 0 && out.specs[i].too_far == 0 && ts[i] >= 3 && !any_disconnect(&t) && r.violation.is_none() {
+                    r.violation = Some(("C08.wedged_by_forged_packet".into(), format!("spec{i} advanced {} frames in the last 90 ticks but {} in the twin run without the forged packets", sp[i], ts[i])));
+                }
+            }
+        }
+    }
     if r.violation.is_none() && deterministic_net {
         let t = run(&twin_of(&sc), &RunOpts::default());
         // frames confirmed and simulated in both runs; when a player was dropped, only up to the earlier of
@@ -153,7 +202,7 @@ pub fn eval(sc0: &Scenario) -> CaseResult {
                 u
             })
             .collect();
-        let keep_times = !sc.ops.iter().any(|o| matches!(o, Op::Forge { kind, .. } if *kind <= 3));
+        let keep_times = !sc.ops.iter().any(|o| matches!(o, Op::Forge { kind, .. } if *kind <= 3 || *kind == 12 || *kind == 13));
         if keep_times {
             r.classes.push("foreign_only(event_instants_compared)");
         }
@@ -196,6 +245,8 @@ pub fn eval(sc0: &Scenario) -> CaseResult {
                 5 => "foreign_magic_copy",
                 6 => "foreign_magic_stale_session",
                 7 => "foreign_magic_any_class",
+                12 => "malformed_payload_with_disconnect_flag",
+                13 => "malformed_payload_with_ack_ahead",
                 10 => "foreign_sync_request",
                 11 => "foreign_sync_reply",
                 _ => "other",
@@ -241,7 +292,7 @@ pub fn gen(tier: Tier, lossy: bool) -> BoxedStrategy<Scenario> {
         p.lat_min = vec![0, 10, 40];
         p.slow = vec![0, 10];
     }
-    let forge = (any::<u16>(), any::<u16>(), 0u8..10, -3i32..8, -3i32..40, garbage(), 0u8..4);
+    let forge = (any::<u16>(), any::<u16>(), 0u8..12, -3i32..8, -3i32..40, garbage(), 0u8..4);
     (scenario(&p), proptest::collection::vec(forge, 1..24), any::<u16>(), any::<u8>())
         .prop_map(|(mut sc, forges, kt, kill)| {
             let links = all_links(&sc);
@@ -259,11 +310,12 @@ pub fn gen(tier: Tier, lossy: bool) -> BoxedStrategy<Scenario> {
                 // kinds 8 and 9 of this generator are the foreign handshake packets (world kinds 10, 11)
                 let kind = if kind >= 8 { kind + 2 } else { kind };
                 // half of the cases consist of foreign packets only (then event instants are compared too)
-                let kind = if foreign_only && kind <= 3 { [4u8, 5, 7, 10, 11, 6][(kind as usize + t as usize) % 6] } else { kind };
+                let own_magic = |k: u8| k <= 3 || k == 12 || k == 13;
+                let kind = if foreign_only && own_magic(kind) { [4u8, 5, 7, 10, 11, 6][(kind as usize + t as usize) % 6] } else { kind };
                 let (from, to) = links[idx(l, links.len())];
                 let tick = match (phase, dead) {
                     (0, _) => 1 + (t % 24) as u32,                                              // handshake
-                    (1, Some(d)) if kind >= 4 => d + 2 + (t % 120) as u32,                      // foreign packet while the dead peer's timeout is pending
+                    (1, Some(d)) if !own_magic(kind) => d + 2 + (t % 120) as u32,                      // foreign packet while the dead peer's timeout is pending
                     (1, Some(d)) => d + 260 + (t % 60) as u32,                                  // after the disconnect
                     _ => 25 + idx(t, sc.ticks.saturating_sub(26).max(1) as usize) as u32,       // running
                 };
@@ -271,7 +323,7 @@ pub fn gen(tier: Tier, lossy: bool) -> BoxedStrategy<Scenario> {
                 // the peer is alive (it refreshes the liveness timer by design); while a dead peer's
                 // timeout is pending only foreign packets are injected, which must not refresh anything
                 let tick = match dead {
-                    Some(d) if kind <= 3 && tick > d.saturating_sub(2) && tick <= d + 260 => d + 261 + (t % 50) as u32,
+                    Some(d) if own_magic(kind) && tick > d.saturating_sub(2) && tick <= d + 260 => d + 261 + (t % 50) as u32,
                     _ => tick,
                 };
                 let from_addr = if kind == 4 { 200 + (a.unsigned_abs() % 20) as u8 } else { from };
@@ -319,7 +371,7 @@ pub fn run_prop(ctx: &Ctx) -> PropReport {
         "2-3 peers (+spectator) on a loss-free fixed-latency network with 1-24 forged packets at arbitrary ticks of every protocol state (handshake, running, after a peer died): copies of the last real input packet with a wrong number of connection statuses (0..n+2), a negative start frame, garbage / structured-malformed payloads, frames of the wrong size, real packets re-sent from unknown addresses, foreign magic on current packets, a foreign-magic 'stale session' first packet, foreign magic on any message class, another session's SyncRequest/SyncReply from the peer's address (also while a dead peer's timeout is pending); oracle: no panic and the delivered inputs and states of every frame confirmed in both runs, the per-address event sequences, the disconnect flags and the spectators' replayed frames identical to the twin run without the forged packets; payloads that the reference decoder recognises as valid right-size encodings are removed (counted); non-trivial = >=1 forged packet injected",
         || gen(tier, false), ctx.tier.pick(6000, 30000), eval));
     rep.part(|| run_random(ctx, "forged_lossy",
-        "the same forged packets interleaved with lossy/duplicating/reordering valid traffic: no panic, C01/C03 clauses and the final serial-replay comparison keep holding (valid traffic continues to be processed correctly)",
+        "the same forged packets interleaved with lossy/duplicating/reordering valid traffic: no panic, C01/C03 clauses and the final serial-replay comparison keep holding, and nobody is wedged: a session with zero progress at the end of the clean settle phase whose twin without the forged packets does progress is a violation (valid traffic continues to be processed correctly); malformed copies of real packets also carry acknowledgement numbers ahead of the truth",
         || gen(tier, true), ctx.tier.pick(4000, 20000), eval));
     let maxlen = ctx.tier.pick(2u32, 3u32);
     let n = super::c14::exh_count(maxlen);
